@@ -214,7 +214,30 @@ func genC14(t *core.Tape, tier string) *Scenario {
 			// the context is cancelled at a random point of the sender
 			// program; the remaining operations still run (and must return)
 			cancelAt = t.Choose(len(sends)+1, "cancel.at")
-			sends = append(sends[:cancelAt:cancelAt], append([]COp{{Op: "cancel"}}, sends[cancelAt:]...)...)
+			rest := sends[cancelAt:]
+			if t.Bool(1, 2, "cancel.ends.request.side") {
+				// finishing by cancellation: no CloseRequest afterwards, at most one
+				// more (failing) Send, then straight to the response side
+				var kept []COp
+				for _, op := range rest {
+					if op.Op == "send" && len(kept) == 0 {
+						kept = append(kept, op)
+					}
+				}
+				hasSendBefore := false
+				for _, op := range sends[:cancelAt] {
+					hasSendBefore = hasSendBefore || op.Op == "send"
+				}
+				if len(kept) == 0 && !hasSendBefore {
+					// the discipline: the request side is started before the
+					// response side is used
+					kept = []COp{{Op: "closereq"}}
+				} else {
+					sc.Notes["cancel_without_closerequest"]++
+				}
+				rest = kept
+			}
+			sends = append(sends[:cancelAt:cancelAt], append([]COp{{Op: "cancel"}}, rest...)...)
 		}
 		if p.Split {
 			p.CProg, p.CProgRcv = sends, rcv
